@@ -2,7 +2,7 @@
 
 Supported subset: if/elif/else, return, raise ValueError, local assignment of constants/expressions,
 `is None`, chained comparisons, and/or/not, min, + - *, `in`/`not in` a tuple of string constants,
-isinstance(x, (int, float)), `x.shape[i]`."""
+isinstance(x, (int, float)), isinstance(n, numbers.Integral) on integer-typed parameters (true by typing), `x.shape[i]`."""
 import ast
 from pyast import Unsupported
 
@@ -131,7 +131,16 @@ class Tr:
     def prop(self, e):
         if isinstance(e, ast.BoolOp):
             op = ' ∧ ' if isinstance(e.op, ast.And) else ' ∨ '
-            return '(' + op.join(self.prop(v) for v in e.values) + ')'
+            vals = e.values
+            if isinstance(e.op, ast.And):
+                # `isinstance(n, numbers.Integral)` on a parameter the model types as an integer holds by typing: the conjunct
+                # is dropped (non-integer arguments are outside the model's domain; the harness exercises them on the code)
+                vals = [v for v in vals if not self.static_true(v)]
+                if not vals:
+                    self.bad(e, 'conjunction of statically true tests only')
+                if len(vals) == 1:
+                    return self.prop(vals[0])
+            return '(' + op.join(self.prop(v) for v in vals) + ')'
         if isinstance(e, ast.UnaryOp) and isinstance(e.op, ast.Not):
             return f'(¬ {self.prop(e.operand)})'
         if isinstance(e, ast.Name):
@@ -163,6 +172,10 @@ class Tr:
                 left = right
             return '(' + ' ∧ '.join(parts) + ')'
         self.bad(e, 'unsupported condition')
+
+    def static_true(self, e):
+        return (isinstance(e, ast.Call) and ast.unparse(e.func) == 'isinstance' and len(e.args) == 2 and isinstance(e.args[0], ast.Name)
+                and self.env.get(e.args[0].id) in ('int', 'optint') and ast.unparse(e.args[1]) == 'numbers.Integral')
 
     def cmp(self, l, op, r, node):
         if isinstance(op, (ast.Is, ast.IsNot)):
